@@ -473,7 +473,7 @@ def assigned_values(fn, name):
     return out
 
 
-def derives(fn, expr, project=None, depth=2, _seen=None):
+def derives(fn, expr, project=None, depth=2, _seen=None, follow_objects=True):
     """Flow-insensitive closure: the set of *atoms* expr is computed from
     inside fn.  Atoms: 'param:<name>', 'attr:<name>' (every attribute name
     read), 'call:<lastname>', 'const:<repr>', 'name:<global name>'.
@@ -488,6 +488,16 @@ def derives(fn, expr, project=None, depth=2, _seen=None):
         for n in ast.walk(e):
             if isinstance(n, ast.Attribute):
                 atoms.add("attr:" + n.attr)
+                if project is not None and depth > 0 and isinstance(n.value, ast.Name):
+                    c = infer_class(project, fn, n.value.id)
+                    if c is not None:
+                        m = project.find_method(c, n.attr)
+                        if m is not None and id(m) not in seen and any(attr_chain(d) == "property" for d in m.decorator_list):
+                            seen.add(id(m))
+                            for r in walk_no_nested(m):
+                                if isinstance(r, ast.Return) and r.value is not None:
+                                    sub = derives(m, r.value, project, depth - 1, seen, follow_objects)
+                                    atoms |= {a for a in sub if not a.startswith("param:")}
             elif isinstance(n, ast.Call):
                 ln = last_name(n)
                 if ln:
@@ -510,6 +520,9 @@ def derives(fn, expr, project=None, depth=2, _seen=None):
                 key = n.id
                 if key in seen:
                     continue
+                if not follow_objects and isinstance(getattr(n, "_parent", None), ast.Attribute) and n._parent.value is n:
+                    atoms.add("obj:" + key)
+                    continue
                 vals = assigned_values(fn, key) if not isinstance(fn, ast.Lambda) else []
                 if key in params:
                     atoms.add("param:" + key)
@@ -520,6 +533,32 @@ def derives(fn, expr, project=None, depth=2, _seen=None):
                 elif key not in params:
                     atoms.add("name:" + key)
     return atoms
+
+
+def infer_class(project, fn, name):
+    """ClassDef of local `name` when it is `self` or assigned from a
+    constructor call of a project class inside fn, else None"""
+    if isinstance(fn, ast.Lambda):
+        return None
+    if name in ("self", "cls"):
+        c = enclosing(fn, (ast.ClassDef,))
+        return c if c is not None and hasattr(c, "_module") else None
+    mod = getattr(fn, "_module", None)
+    if mod is None:
+        p = fn
+        while p is not None and not hasattr(p, "_module"):
+            p = getattr(p, "_parent", None)
+        mod = getattr(p, "_module", None)
+    if mod is None:
+        return None
+    for v in assigned_values(fn, name):
+        if isinstance(v, ast.Call):
+            ch = attr_chain(v.func)
+            if ch:
+                r = project.resolve_name(mod, ch)
+                if isinstance(r, ast.ClassDef):
+                    return r
+    return None
 
 
 def resolve_call(project, fn, call):
